@@ -484,14 +484,25 @@ func (g *G) vectorProd(which string, depth int, max Cls) (string, Cls) {
 		return "vector(" + s + ")", c
 	case "unary":
 		v, c := g.Vector(depth-1, max)
+		if chance(t, 1, 4, "unaryplus") {
+			return "+" + paren(v), c
+		}
 		return "-" + paren(v), c
 	case "hist":
 		phi, _ := g.Scalar(1, I)
+		if chance(t, 1, 2, "philit") {
+			phi = pick(t, []string{"0", "0.5", "0.9", "1", "-1", "2", "NaN", "0.25", "0.99", "Inf"}, "phi")
+		}
 		var arg string
-		if chance(t, 1, 2, "histraw") {
+		switch ir(t, 0, 4, "histarg") {
+		case 0, 1:
 			arg = "h_bucket" + g.modifiers()
-		} else {
+		case 2:
 			arg = "sum by (le" + pick(t, []string{"", ",a", ",b"}, "histby") + ") (h_bucket)"
+		case 3:
+			arg = pick(t, []string{"max", "sum", "min"}, "histagg") + " without (" + pick(t, []string{"a", "b", "c", "a,c"}, "histwo") + ") (h_bucket" + g.modifiers() + ")"
+		default:
+			arg = "h_bucket{" + pick(t, []string{"le!=\"x\"", "a=~\".*\"", "le=~\".+\",b!=\"9\""}, "histm") + "}" + g.modifiers()
 		}
 		return "histogram_quantile(" + phi + ", " + arg + ")", R
 	case "func":
@@ -642,6 +653,15 @@ func (g *G) kParam(depth int) string {
 			return pick(t, []string{"time() / 1000", "scalar(count(m))", "scalar(m)", "1 + 1", "scalar(n{a=\"1\"})"}, "kexpr")
 		}
 		return "2"
+	case 2:
+		if !g.p.NoScalarFn {
+			// a parameter that reads series, with its own offset / @ modifiers
+			if chance(t, 1, 2, "kagg") {
+				return "scalar(" + pick(t, []string{"count", "max", "min"}, "kaggop") + "(" + g.selector() + "))"
+			}
+			return "scalar(" + pick(t, g.p.Metrics, "kmetric") + "{" + pick(t, []string{"a=\"1\"", "b=\"2\"", "a=\"3\",b=\"1\""}, "kmatch") + "}" + g.modifiers() + ")"
+		}
+		return "3"
 	default:
 		return strconv.Itoa(ir(t, 1, 5, "k"))
 	}
